@@ -1,5 +1,123 @@
-(** C12 — property theorems (statements only; proofs by [exact]). *)
-From Coq Require Import String Ascii NArith List Bool.
-From RlibV Require Import C12.Model C12.Corr.
+(** C12 — property theorems (statements only; proofs by [exact]).
+
+    A bitset is a list of words; [wfb s = true] says every word is below 2^64 (what a
+    [u64; N] always satisfies); [cap s = 64 * number of words]; the set it denotes is
+    [mem s i = N.testbit (word s (i / 64)) (i mod 64)] ([word] = the [i/64]-th word, see [c12_mem_nth]).
+    Every statement holds for every number of words NW (in particular every NW >= 1). *)
+From Coq Require Import String Ascii NArith List Bool Sorted.
+From RlibV Require Import C12.Model C12.Corr C12.ProofsBase C12.ProofsOps C12.ProofsAbs C12.ProofsIter C12.ProofsHist.
 Import ListNotations.
-Open Scope N_scope.
+Local Open Scope N_scope.
+
+(** membership read with the standard [nth] *)
+Theorem c12_mem_nth : forall (s : bitset) (i : N),
+  mem s i = N.testbit (nth (N.to_nat (i / 64)) s 0) (i mod 64).
+Proof. exact mem_nth. Qed.
+
+(** set: in range, membership changes exactly at x (to true), the result is well formed and has the
+    same number of words; out of range, the call panics *)
+Theorem c12_set : forall (s : bitset) (x : N), wfb s = true ->
+  (x < cap s -> exists s', set s x = Some s' /\ wfb s' = true /\ length s' = length s /\
+                 forall i, mem s' i = if i =? x then true else mem s i)
+  /\ (cap s <= x -> set s x = None).
+Proof. exact set_correct. Qed.
+
+Theorem c12_remove : forall (s : bitset) (x : N), wfb s = true ->
+  (x < cap s -> exists s', remove s x = Some s' /\ wfb s' = true /\ length s' = length s /\
+                 forall i, mem s' i = if i =? x then false else mem s i)
+  /\ (cap s <= x -> remove s x = None).
+Proof. exact remove_correct. Qed.
+
+Theorem c12_flip : forall (s : bitset) (x : N), wfb s = true ->
+  (x < cap s -> exists s', flip s x = Some s' /\ wfb s' = true /\ length s' = length s /\
+                 forall i, mem s' i = if i =? x then negb (mem s i) else mem s i)
+  /\ (cap s <= x -> flip s x = None).
+Proof. exact flip_correct. Qed.
+
+(** test = membership; out of range it panics *)
+Theorem c12_test : forall (s : bitset) (x : N),
+  test s x = if x <? cap s then Some (mem s x) else None.
+Proof. exact test_correct. Qed.
+
+Theorem c12_clear : forall s : bitset,
+  wfb (clear s) = true /\ length (clear s) = length s /\ forall i, mem (clear s) i = false.
+Proof. exact clear_correct. Qed.
+
+Theorem c12_new : forall n : nat,
+  wfb (new n) = true /\ length (new n) = n /\ forall i, mem (new n) i = false.
+Proof. exact new_correct. Qed.
+
+(** from_u64: the members are the set bits of x (all below 64) *)
+Theorem c12_from_u64 : forall (n : nat) (x : N), (1 <= n)%nat -> x < 2 ^ 64 ->
+  exists s, from_u64 n x = Some s /\ wfb s = true /\ length s = n /\
+            forall i, mem s i = if i <? 64 then N.testbit x i else false.
+Proof. exact from_u64_correct. Qed.
+Theorem c12_from_u64_zero_words_panics : forall x : N, from_u64 0 x = None.
+Proof. exact from_u64_zero. Qed.
+
+(** the by-reference operator form computes what the assigning form computes *)
+Theorem c12_bin_ref : forall (f : N -> N -> N) (s t : bitset), length s = length t ->
+  bin_ref f s t = Some (bin_assign f s t).
+Proof. exact bin_ref_assign_len. Qed.
+
+Theorem c12_and : forall s t : bitset, wfb s = true -> wfb t = true -> length s = length t ->
+  wfb (bin_assign N.land s t) = true /\ length (bin_assign N.land s t) = length s /\
+  forall i, mem (bin_assign N.land s t) i = mem s i && mem t i.
+Proof. exact (fun s t => bin_assign_correct N.land andb s t land_ok). Qed.
+Theorem c12_or : forall s t : bitset, wfb s = true -> wfb t = true -> length s = length t ->
+  wfb (bin_assign N.lor s t) = true /\ length (bin_assign N.lor s t) = length s /\
+  forall i, mem (bin_assign N.lor s t) i = mem s i || mem t i.
+Proof. exact (fun s t => bin_assign_correct N.lor orb s t lor_ok). Qed.
+Theorem c12_xor : forall s t : bitset, wfb s = true -> wfb t = true -> length s = length t ->
+  wfb (bin_assign N.lxor s t) = true /\ length (bin_assign N.lxor s t) = length s /\
+  forall i, mem (bin_assign N.lxor s t) i = xorb (mem s i) (mem t i).
+Proof. exact (fun s t => bin_assign_correct N.lxor xorb s t lxor_ok). Qed.
+
+(** complement: inside the capacity membership is negated, and every word stays below 2^64 *)
+Theorem c12_not : forall s : bitset, wfb s = true ->
+  wfb (bnot s) = true /\ length (bnot s) = length s /\
+  forall i, i < cap s -> mem (bnot s) i = negb (mem s i).
+Proof. exact bnot_correct. Qed.
+
+(** count = number of members *)
+Theorem c12_count : forall s : bitset, wfb s = true ->
+  count s = N.of_nat (length (filter (mem s) (indices s))).
+Proof. exact count_correct. Qed.
+Theorem c12_indices : forall (s : bitset) (i : N), In i (indices s) <-> i < cap s.
+Proof. exact in_indices. Qed.
+
+(** iter_bits terminates (the result is not the out-of-fuel value) and yields a strictly ascending
+    list containing exactly the members; the cursor ends at the capacity, where next returns None
+    and leaves the cursor in place: None forever *)
+Theorem c12_iter_bits : forall s : bitset, wfb s = true -> cap s < 2 ^ 64 ->
+  exists l, iter_bits s = Some (cap s, l) /\ StronglySorted N.lt l /\
+            (forall i, In i l <-> i < cap s /\ mem s i = true) /\
+            next s (cap s) = Some (None, cap s).
+Proof. exact iter_bits_full. Qed.
+(** one call of next from any cursor position: the least member at or after the cursor *)
+Theorem c12_next : forall (s : bitset) (idx : N), wfb s = true -> cap s < 2 ^ 64 -> idx <= cap s ->
+  (exists m, next s idx = Some (Some m, m + 1) /\ idx <= m /\ m < cap s /\ mem s m = true /\
+             forall i, idx <= i -> i < m -> mem s i = false)
+  \/ (next s idx = Some (None, cap s) /\ forall i, idx <= i -> i < cap s -> mem s i = false).
+Proof. exact next_full. Qed.
+
+(** derived equality = same set *)
+Theorem c12_eq : forall s t : bitset, wfb s = true -> wfb t = true -> length s = length t ->
+  (beq s t = true <-> s = t) /\ (s = t <-> forall i, i < cap s -> mem s i = mem t i).
+Proof. exact eq_full. Qed.
+
+(** Display / Debug: 64*NW characters, the i-th is '1' iff i is a member *)
+Theorem c12_display : forall s : bitset,
+  exists str, display s = Some str /\ String.length str = (64 * length s)%nat /\
+    forall i, i < cap s -> String.get (N.to_nat i) str = Some (if mem s i then "1"%char else "0"%char).
+Proof. exact display_correct. Qed.
+
+(** any history (any registers, any operations, from_u64 arguments being u64 values) shows the same
+    observations on the word model and on the naive list-of-booleans set *)
+Theorem c12_history : forall nw : nat, N.of_nat nw < 2 ^ 58 -> forall ops : list op, Forall op_ok ops ->
+  run (word_impl nw) (init (word_impl nw)) ops = run (naive_impl nw) (init (naive_impl nw)) ops.
+Proof. exact history_correct. Qed.
+
+(** hence a correspondence case that matches the model satisfies the specification *)
+Theorem c12_model_check_spec_check : forall c : case, case_ok c -> model_check c = true -> spec_check c = true.
+Proof. exact model_check_spec_check. Qed.
